@@ -1,21 +1,24 @@
 --------------------------- MODULE Gen_LinkedControl ---------------------------
-(* spec -> code: operation sequences of LinkedControl for groups of 1..3 controllers *)
+(* spec -> code: operation sequences of LinkedControl for every layout:         *)
+(* one output with 1..3 controllers to depth Depth, two outputs with 1..2       *)
+(* controllers each to depth Depth2                                             *)
 EXTENDS LinkedControl, Json, Sequences
-CONSTANTS Depth,
+CONSTANTS Depth, Depth2,
           Upd,     \* controllers whose driver calls update_target
           UpdAny   \* FALSE: only the module in control calls update_target (the documented use)
 VARIABLE hist
 
-Obs == [active |-> active', cby |-> cby']
+Obs == [active |-> active', cby |-> cby', foreign |-> foreign']
 Rec(a) == hist' = Append(hist, a @@ [exp |-> Obs])
 
 GInit == /\ CInit
-         /\ hist = <<[act |-> "init", n |-> n, exp |-> [active |-> active, cby |-> cby]]>>
+         /\ hist = <<[act |-> "init", lay |-> lay, exp |-> [active |-> active, cby |-> cby, foreign |-> foreign]]>>
 GNext == \/ \E c \in Ctls : TakeOver(c) /\ Rec([act |-> "take", c |-> c])
-         \/ \E c \in Upd : (UpdAny \/ cby = c) /\ UpdateTarget(c) /\ Rec([act |-> "upd", c |-> c])
-         \/ SelfControl /\ Rec([act |-> "self"])
+         \/ \E c \in Upd : (UpdAny \/ cby[OutOf(c)] = c) /\ UpdateTarget(c) /\ Rec([act |-> "upd", c |-> c])
+         \/ \E o \in Outs : SelfControl(o) /\ Rec([act |-> "self", o |-> o])
 GSpec == GInit /\ [][GNext]_<<cvars, hist>>
 
-Bound == TLCGet("level") <= Depth
-Emit1 == (TLCGet("level") = Depth + 1) => PrintT(<<"BEH", ToJson(hist)>>)
+D == IF lay % 10 = 0 THEN Depth ELSE Depth2
+Bound == TLCGet("level") <= D
+Emit1 == (TLCGet("level") = D + 1) => PrintT(<<"BEH", ToJson(hist)>>)
 =============================================================================
